@@ -98,22 +98,34 @@ def gen_case(seed):
         elif x < 0.56: tr.take(h); ops.append(f"call {h} publish {xs(k)} {js(val())}")
         elif x < 0.62:
             t = tr.take(h); kind = r.choice(["subscribe", "psubscribe", "subls"])
-            if kind == "subscribe": ops.append(f"call {h} subscribe {xs(k)} {r.randint(0, 1)} {r.randint(0, 1)}")
-            elif kind == "psubscribe": ops.append(f"call {h} psubscribe {xs(r.choice(PATS))} {r.randint(0, 1)} {r.randint(0, 1)}")
-            else: ops.append(f"call {h} subls {r.choice(['-', xs('a'), xs('a/b')])}")
+            tk = r.choice(["", "", "_async"])        # the ticket API: no local event stream, the caller only gets the id
+            if kind == "subscribe": ops.append(f"call {h} subscribe{tk} {xs(k)} {r.randint(0, 1)} {r.randint(0, 1)}")
+            elif kind == "psubscribe": ops.append(f"call {h} psubscribe{tk} {xs(r.choice(PATS))} {r.randint(0, 1)} {r.randint(0, 1)}")
+            else: ops.append(f"call {h} subls{tk} {r.choice(['-', xs('a'), xs('a/b')])}")
             subs.append((h, t, kind))
         elif x < 0.70 and subs:
             sh, t, kind = subs.pop(r.randrange(len(subs)))
             tr.take(sh)
             if kind == "subls": ops.append(f"call {sh} {r.choice(['unsubls', 'unsubls_async'])} {t}")
             else: ops.append(f"call {sh} {r.choice(['unsubscribe', 'unsubscribe_async'])} {t}")
-        elif x < 0.73: tr.take(h); ops.append(f"call {h} {r.choice(['set_async', 'get_async'])} {xs(k)}" + (f" {js(val())}" if ops[-1:] and False else ""))
+        elif x < 0.73:
+            tr.take(h); a = r.choice(["set_async", "get_async", "cset_async", "publish_async", "cget_async", "pget_async", "delete_async", "pdelete_async",
+                                      "ls_async", "pls_async", "lock_async", "release_async", "spubinit_async"])
+            if a in ("set_async", "publish_async"): ops.append(f"call {h} {a} {xs(k)} {js(val())}")
+            elif a == "cset_async": ops.append(f"call {h} {a} {xs(k)} {js(val())} {r.choice([0, 0, 1, 2])}")
+            elif a == "pget_async": ops.append(f"call {h} {a} {xs(r.choice(PATS))}")
+            elif a == "pdelete_async": ops.append(f"call {h} {a} {xs(r.choice(PATS))} {r.randint(0, 1)}")
+            elif a in ("ls_async", "pls_async"): ops.append(f"call {h} {a} {r.choice(['-', xs('a'), xs('a/b')])}")
+            elif a in ("lock_async", "release_async"): ops.append(f"call {h} {a} {xs(r.choice(['l', 'l/m']))}")
+            else: ops.append(f"call {h} {a} {xs(k)}")
         elif x < 0.76:
             t = tr.take(h); ops.append(f"call {h} spubinit {xs(k)}"); streams.append((h, t))
         elif x < 0.79 and streams:
             sh, t = r.choice(streams)
             if r.random() < 0.3:
                 n = r.randint(2, 5); tr.take(sh, n); ops.append(f"parspub {sh} {t} {n}")
+            elif r.random() < 0.3:
+                tr.take(sh); ops.append(f"call {sh} spub_async {t} {js(val())}")
             else:
                 tr.take(sh); ops.append(f"call {sh} spub {t} {js(val())}")
         elif x < 0.84:
@@ -130,8 +142,6 @@ def gen_case(seed):
             for nm, (bh, pend) in buffers.items():
                 tr.take(bh, len(pend)); pend.clear()
         else: tr.take(h); ops.append(f"call {h} lock {xs(r.choice(['l', 'l/m']))}")
-    # fix the async ops that need a value
-    ops = [o + f" {js(1)}" if " set_async " in o and o.count(" ") == 3 else o for o in ops]
     ops.append(f"call 0 pget {xs('a/#')}")
     return ops
 
@@ -198,9 +208,15 @@ def api_oracle(ops, lines, known=None):
             if res == "noanswer": return (i, f"call `{' '.join(t[2:4])}` never resolved")
             if kind == "set":
                 if res == "ok": sp.set(untok(t[3]), json.loads(untok(t[4])))
-            elif kind == "set_async":
-                cur = sp.m.get(tuple(untok(t[3]).split("/")))
-                if not (cur and cur[0] == "C"): sp.set(untok(t[3]), json.loads(untok(t[4])))
+            elif kind.endswith("_async") and kind in ("set_async", "cset_async", "delete_async", "pdelete_async"):
+                # fire-and-forget: the caller only gets the id; whether the server accepted is read off its answer to that id
+                if not res.startswith("tid:"): return (i, f"{kind} returned {decode_tok(res)} instead of its transaction id")
+                ans = [v for c, d, v in map(msg_json, msgs) if c == h and d == "S" and isinstance(v, dict) and tid_of(v) == int(res[4:])]
+                accepted = bool(ans) and "err" not in ans[0]
+                if accepted and kind == "set_async": sp.set(untok(t[3]), json.loads(untok(t[4])))
+                if accepted and kind == "cset_async": sp.cset(untok(t[3]), json.loads(untok(t[4])), int(t[5]))
+                if accepted and kind == "delete_async": sp.delete(untok(t[3]))
+                if accepted and kind == "pdelete_async": sp.pdelete(untok(t[3]))
             elif kind == "cset":
                 if res == "ok": sp.cset(untok(t[3]), json.loads(untok(t[4])), int(t[5]))
             elif kind == "get":
@@ -305,5 +321,5 @@ def run(v, tier, seed):
                      "broken_obligation": "correspondence client/C20 (Model/Client.v on_cmd / on_msg / result_of / bstep over Model/Session.v)"}, no_input=True)
     samples = [{"case": nm, "ops": [decode_tok(o) for o in ops][:30], "observed": [decode_tok(l)[:400] for l in A.get(nm, [])][:30]} for nm, ops in cases if nm in nontrivial][:2]
     v.cov.update({"evaluations": ncases, "distinct_nontrivial": len(nontrivial), "steps": nsteps, "disagreements": len(diffs), "samples": samples, "api_calls": calls, "concurrent_tasks": partasks, "buffered_values": laters,
-                  "rule": f"the real worterbuch-client library over a unix socket against a real in-process server, through a recording proxy (every line the library sends and receives is observed); corpus (the F14/F15 demonstration) + {n} random scripts on two connections: all awaited calls (set, cset, get, cget, pget, delete, pdelete, ls, publish, spub_init/spub, lock), fire-and-forget calls, subscribe / psubscribe / subscribe_ls with their event streams, unsubscribe of either kind awaited or not, batches of 2..12 concurrent tasks on cloned handles (3 calls each), send-buffer bursts (repeated keys, set and publish on the same key) followed by a pause of 3 x delay; compared per step with Client model over Session model: the API result, every client and server message with its transaction id (per connection, ordered by id; concurrent steps without ids, sorted), the subscription events; independent oracle: key/value reference for typed results, own-value read-back per concurrent task, exactly-the-latest-per-key for the buffer, silence after unsubscribe",
+                  "rule": f"the real worterbuch-client library over a unix socket against a real in-process server, through a recording proxy (every line the library sends and receives is observed); corpus (the F14/F15 demonstration) + {n} random scripts on two connections: all awaited calls (set, cset, get, cget, pget, delete, pdelete, ls, publish, spub_init/spub, lock), the fire-and-forget variant of every call (15 kinds), subscribe / psubscribe / subscribe_ls with their event streams or through the ticket API (no local stream), unsubscribe of either kind awaited or not, batches of 2..12 concurrent tasks on cloned handles (3 calls each), send-buffer bursts (repeated keys, set and publish on the same key) followed by a pause of 3 x delay; compared per step with Client model over Session model: the API result, every client and server message with its transaction id (per connection, ordered by id; concurrent steps without ids, sorted), the subscription events; independent oracle: key/value reference for typed results, own-value read-back per concurrent task, exactly-the-latest-per-key for the buffer, silence after unsubscribe",
                   "not_covered": "task scheduling inside the library beyond the interleavings that occurred; timing closer than 3 x delay around the buffer's timer; tcp and websocket transports; typed (serde) conversion of values beyond serde_json::Value"})
